@@ -4,8 +4,8 @@ P=$1; WT=$2; ID=${3:-$P-1}
 OUT=/verif/seeded/$ID; mkdir -p $OUT
 cp $WT/patch.diff $WT/demo.py $OUT/ 2>/dev/null; cp $WT/meta.json $OUT/agent_meta.json 2>/dev/null
 export TMPDIR=$WT/.tmp; mkdir -p $TMPDIR
-echo "--- demo WITH change"; (cd $WT && PYTHONPATH=$WT/src timeout 600 /venv/bin/python -W ignore demo.py >/tmp/lead_scratch/demo_with.txt 2>&1; echo "exit $?"; tail -3 /tmp/lead_scratch/demo_with.txt | cut -c1-300) | tee $OUT/demo_with_change.txt
-echo "--- demo WITHOUT change (/repo source)"; (cd $WT && PYTHONPATH=/repo/src timeout 600 /venv/bin/python -W ignore demo.py >/tmp/lead_scratch/demo_wo.txt 2>&1; echo "exit $?"; tail -2 /tmp/lead_scratch/demo_wo.txt | cut -c1-300) | tee $OUT/demo_without_change.txt
+echo "--- demo WITH change"; (cd $WT && PYTHONPATH=$WT/src timeout 600 /venv/bin/python -W ignore demo.py >/tmp/lead_scratch/demo_with_$ID.txt 2>&1; echo "exit $?"; tail -3 /tmp/lead_scratch/demo_with_$ID.txt | cut -c1-300) | tee $OUT/demo_with_change.txt
+echo "--- demo WITHOUT change (/repo source)"; (cd $WT && PYTHONPATH=/repo/src timeout 600 /venv/bin/python -W ignore demo.py >/tmp/lead_scratch/demo_wo_$ID.txt 2>&1; echo "exit $?"; tail -2 /tmp/lead_scratch/demo_wo_$ID.txt | cut -c1-300) | tee $OUT/demo_without_change.txt
 echo "--- suite WITH change"; (cd $WT && PYTHONPATH=$WT/src timeout 1500 /venv/bin/python -m pytest -q -p no:cacheprovider --timeout=900 tests 2>&1 | grep -E "passed|failed" | tail -1) | tee $OUT/suite_with_change.txt
 unset TMPDIR
 echo "--- check $P against the changed tree"; (cd /verif && VERIF_REPO=$WT timeout 3000 ./check $P 2>&1 | grep -E "^VIOLATION|^KNOWN|ERROR" | cut -c1-250; echo "exit ${PIPESTATUS[0]}") | tee $OUT/check_output.txt
